@@ -104,14 +104,14 @@ FS1K = ["--max-field-sensitivity-array-size", "1024"]
 
 def H(prop, module, name, tier="quick", timeout=120, bounds="", encodes=(), stubs=(), assumes=(),
       expect="pass", replay="playback", unwind=None, kani_args=(), unwind_is_violation=False, note="",
-      no_cover=None, cbmc_args=(), tagged_results=False):
+      no_cover=None, cbmc_args=(), tagged_results=False, mem_gb=None):
     if expect == "witness-fail" and timeout < 600:
         timeout = 600   # a twin that comes back without a verdict breaks the whole check: never let it be the time limit
     HARNESSES.append(dict(prop=prop, module=module, name=name, tier=tier, timeout=timeout, bounds=bounds,
                           encodes=list(encodes), stubs=list(stubs), assumes=list(assumes), expect=expect,
                           replay=replay, unwind=unwind, kani_args=list(kani_args),
                           unwind_is_violation=unwind_is_violation, note=note, no_cover=no_cover, cbmc_args=list(cbmc_args),
-                          tagged_results=tagged_results))
+                          tagged_results=tagged_results, mem_gb=mem_gb))
 
 
 def select(prop, tier):
@@ -414,6 +414,9 @@ H("C09", "gearsets", "c09_dat_header_layout", unwind=10, timeout=300, bounds="al
 H("C09", "gearsets", "c09_slot_type_tables", unwind=4, bounds="all usize", encodes=["gearsets::GearSlotType::try_from", "gearsets::GearSlotType::to_slot"])
 H("C09", "gearsets", "c09_gearset_table_positions", tier="thorough", unwind=104, timeout=1800, cbmc_args=["--max-field-sensitivity-array-size", "16384"], bounds="100-entry list with positions 0, 57, 99 occupied (symbolic index bytes)", encodes=["gearsets::convert_to_gearsets"],
   stubs=["std::hash::RandomState::new -> fixed keys"])
+for n, t in ((46, "quick"), (45, "thorough"), (1, "quick")):
+    H("C09", "gearsets", "c09_gearset_name_len%d" % n, tier=t, unwind=50, timeout=600, bounds="all ASCII gear-set names of length %d (the name field holds 46 bytes + terminator): write-side conversion keeps every byte, and converts back" % n,
+      encodes=["gearsets::convert_from_string", "gearsets::convert_to_string", "binrw::NullString"], stubs=["core::str::validations::run_utf8_validation -> ASCII-only model"])
 H("C09", "gearsets", "c09g_pipeline_witness", expect="witness-fail", bounds="assert(false) twin")
 
 # ================================================================================================
@@ -605,7 +608,7 @@ for n in ("inside_file", "nothing", "across_end"):
 # models on top (see TRANSFORMS["patch"] and check: patch_binrw(tagged_results)): explicit tag bytes for patch.rs's data-carrying
 # enums and a niche-free binrw::Error, without which nothing read out of a parsed command is a constant for symbolic execution.
 _AP = dict(tier="thorough", unwind=160, timeout=3000, cbmc_args=["--max-field-sensitivity-array-size", "2048"], kani_args=["--no-assertion-reach-checks"],
-           tagged_results=True,
+           tagged_results=True, mem_gb=20,
            encodes=["patch::ZiPatch::apply", "patch::PatchChunk / ChunkType / SqpkChunk / SqpkOperation (binrw)", "patch::get_expansion_folder_sub",
                     "common::get_platform_string", "patch::write_empty_file_block_at", "patch::wipe", "sqpack::read_data_block_patch"],
            stubs=_MFS + FMT + ["#[repr(u8)] on patch::ChunkType / SqpkOperation / FileHeaderChunk (layout only)",
@@ -618,8 +621,9 @@ H("C03", "patch", "c03_apply_expand_data", bounds=_APB + "E at block 1, 3 blocks
 H("C03", "patch", "c03_apply_delete_data_across_end", bounds=_APB + "D at block 2, 4 blocks, ps3, file of 384 bytes (range starts inside, ends behind the end)", **_AP)
 H("C03", "patch", "c03_apply_add_data", bounds=_APB + "A: 128 payload bytes at block 1 + 1 block wiped, 640-byte file", **_AP)
 H("C03", "patch", "c03_apply_add_data_at_end_no_delete", bounds=_APB + "A: 128 payload bytes at block 5 (the end of the file), nothing wiped", **_AP)
+_APF = dict(_AP); _APF["unwind"] = 170
 for n in ("overwrite_at_3", "replace_at_0", "new_at_16"):
-    H("C03", "patch", "c03_apply_add_file_" + n, bounds=_APB + "F/A with one raw block of 5 bytes (" + n + "), a neighbouring file must stay untouched", **_AP)
+    H("C03", "patch", "c03_apply_add_file_" + n, bounds=_APB + "F/A with one raw block of 5 bytes (" + n + "), a neighbouring file must stay untouched", **_APF)
 H("C03", "patch", "c03_apply_delete_file", bounds=_APB + "F/D: exactly the named file disappears", **_AP)
 H("C03", "patch", "c03_apply_make_dir_tree", bounds=_APB + "F/M: parent directory created, files untouched", **_AP)
 H("C03", "patch", "c03_apply_second_target_info_wins", bounds="T(win32), T(ps4), E: the file of the second platform is created, none for the first", **_AP)
